@@ -522,9 +522,6 @@ Theorem replace_same_atom_is_identity : forall E f a p,
   (forall rho, f_density f = Some rho -> f_density (f_replace E f a a p) = Some rho).
 Proof.
   intros E f a p. unfold f_replace. rewrite atom_eqb_refl.
-  assert (H : (if dget (f_atoms f) a then formula_of_dict E (f_atoms f) (f_density f)
-               else formula_of_dict E (f_atoms f) (f_density f)) = formula_of_dict E (f_atoms f) (f_density f))
-    by (destruct (dget (f_atoms f) a); reflexivity).
   replace (match dget (f_atoms f) a with
            | Some _ => formula_of_dict E (f_atoms f) (f_density f)
            | None => formula_of_dict E (f_atoms f) (f_density f) end)
